@@ -31,16 +31,36 @@ func genC19(c *Cfg) func(t *rapid.T) c19Case {
 	g := genProgCase(c)
 	return func(t *rapid.T) c19Case {
 		pc := g(t)
+		targets := genTargets
+		if twinFiles(pc.P) && rapid.Bool().Draw(t, "twin-target") {
+			// targets that fold all reachable files into one output (keyed by file name)
+			targets = []string{"json", "json:indent", "html", "html:standalone"}
+		}
 		return c19Case{P: pc.P, Lex: pc.Lex,
-			Target: rapid.SampledFrom(genTargets).Draw(t, "target"),
+			Target: rapid.SampledFrom(targets).Draw(t, "target"),
 			Delim:  rapid.SampledFrom([]string{".", ".", "/", "-"}).Draw(t, "delim"),
 			CLI:    rapid.IntRange(0, 3).Draw(t, "cli") == 0,
 			Reuse:  rapid.IntRange(0, 2).Draw(t, "reuse") == 0}
 	}
 }
 
+// twinFiles: two files of the program share a base name.
+func twinFiles(p *Program) bool {
+	seen := map[string]bool{}
+	for _, f := range p.Files {
+		if seen[f.Name] {
+			return true
+		}
+		seen[f.Name] = true
+	}
+	return false
+}
+
 func classifyC19(c c19Case) ev.Class {
 	kinds, labels := programStats(c.P)
+	if twinFiles(c.P) {
+		labels = append(labels, "same-base-name-files")
+	}
 	labels = append(labels, "target="+c.Target)
 	if c.CLI {
 		labels = append(labels, "cli-placements")
@@ -188,7 +208,11 @@ func checkC19Inner(c c19Case) *ev.Failure {
 		runs = append(runs, run{name, out, d})
 		return nil
 	}
-	for i := 0; i < 3; i++ {
+	reps := 3
+	if twinFiles(c.P) {
+		reps = 16 // an order that depends on map iteration over two entries shows up in about one run in eight
+	}
+	for i := 0; i < reps; i++ {
 		if f := inproc(fmt.Sprintf("repetition %d (same location)", i+1), root, filepath.Join(dir, "a", fmt.Sprintf("out%d", i))); f != nil {
 			if i == 0 {
 				return nil // not compilable: out of this property's domain
